@@ -25,6 +25,7 @@ type RenderOpts struct {
 	FieldHook  func(ts *TypeSchema, i int, f *Field) // perturb a copy of the field record (C02 non-triviality)
 	SwapAt     func(ts *TypeSchema) int              // swap fields i and i+1 of this type (-1: none)
 	Spans      bool
+	NoService  map[string]bool // checksum services that are not registered: the frame then carries the caller's value
 }
 
 type Rendered struct {
@@ -227,6 +228,9 @@ func (r *renderer) value(v *Value, path string) {
 			r.span(p, "len", off, lenSize, NMask(f.NType))
 		case "checksum":
 			c := refChecksum(f.Algo, r.out[start:])
+			if r.opts != nil && r.opts.NoService[f.Algo] {
+				c = x.N // pinned behaviour without the service: the caller's value goes out unchanged
+			}
 			r.out = putUint(r.out, c&NMask(f.NType), NSize(f.NType), le)
 			r.span(p, "checksum", off, NSize(f.NType), NMask(f.NType))
 		default:
